@@ -65,6 +65,7 @@ class GEngine(object):
                       "fs_ops": 0, "harness_errors": 0, "probes": {}, "faults_fired": {},
                       "violating_histories": 0}
         self.states = set()
+        self.run_log = []
         self.hist_digests = set()
         self.samples = []
         self.failures = []  # (spec, result)
@@ -191,6 +192,8 @@ class GEngine(object):
         for k, v in res.get("probes", {}).items():
             st["probes"][k] = st["probes"].get(k, 0) + v
         self.hist_digests.add(res["digest"])
+        self.run_log.append((spec.get("round", -1), spec.get("index", -1), res["digest"],
+                             len(res.get("violations", []))))
         prev = False
         for r in res["runs"]:
             for f in r.get("faults_fired", []):
@@ -349,6 +352,7 @@ class GEngine(object):
             "histories_fault_free": st["histories_clean"],
             "histories_fault_injecting": st["histories_faulty"],
             "distinct_event_logs": len(self.hist_digests),
+            "run_digest": digest_obj(sorted(self.run_log)),
             "simulated_time": "no simulated clock (shroud has no timers); logical steps = %d fs ops "
                               "over %d runs" % (st["fs_ops"], st["runs"]),
             "fault_kinds_fired": st["faults_fired"],
